@@ -286,7 +286,7 @@ def run_reference(usages_argvs):
     return res
 
 
-def run_impl(cases, repeat=1):
+def run_impl(cases, repeat=1, per_case_timeout=20):
     """cases: list of (script text, argv) -> list of outs lists"""
-    outs = C.run_harness("docopt", [dict(file=f, args=av, repeat=repeat) for f, av in cases], per_case_timeout=20)
+    outs = C.run_harness("docopt", [dict(file=f, args=av, repeat=repeat) for f, av in cases], per_case_timeout=per_case_timeout)
     return [o.get("outs") if not o.get("crash") else [{"crash": True}] for o in outs]
